@@ -29,6 +29,7 @@ ASSUMPTIONS = [
     "a checkpoint returning a truthy/falsy non-bool is read by truthiness",
 ]
 MIN_NONTRIVIAL_FRACTION = 0.3
+RULE += " Added after the seeded rounds: " + 'Stage names may repeat; a second run of the same cascade must equal the first; gates, processors and handlers raise one of 16 exception types.'
 EXHAUSTIVE_NOTE = {"quick": "all pipelines of 1..2 stages over 48 stage behaviours x halt on/off (2*(48+2304) = 4704), complete",
                    "thorough": "all pipelines of 1..3 stages over 48 stage behaviours x halt on/off (2*(48+2304+110592) = 225888), complete"}
 
